@@ -63,13 +63,18 @@ func allowFromEnv() map[string]bool {
 }
 
 func genCase(t *rapid.T) faultCase {
-	l := fedgen.Gen(t, fedgen.Options{Allow: allowFromEnv(), NoRequires: !allowFromEnv()["requires"]})
+	// a fetch that serves two places with different producers (merged by fetch de-duplication)
+	// is skipped as a whole when one producer fails: finding C07-merged-fetch-skipped-as-a-whole;
+	// the layouts and operations that lead to such fetches are kept out by construction
+	multi := allowFromEnv()["multi-producer-fetch"]
+	l := fedgen.Gen(t, fedgen.Options{Allow: allowFromEnv(), NoRequires: !allowFromEnv()["requires"],
+		Exclude: map[string]bool{"split-iface-composite": !multi, "provides-on-iface-field": !multi}})
 	super, err := sim.LoadSuper(l.Super)
 	if err != nil {
 		t.Fatalf("generator produced an invalid supergraph: %v", err)
 	}
 	return faultCase{Layout: l, Seed: rapid.Uint64Range(1, 1<<20).Draw(t, "useed"),
-		Op: opgen.Gen(t, super, opgen.Options{Mutations: allowFromEnv()["mutation-sequence"], ForceName: true, Allow: allowFromEnv()})}
+		Op: opgen.Gen(t, super, opgen.Options{Mutations: allowFromEnv()["mutation-sequence"], ForceName: true, Allow: allowFromEnv(), NoMirrored: !multi})}
 }
 
 var faultPart = pbt.Part[faultCase]{Name: "fault-isolation-random", Quick: 7000, Thorough: 140000, Check: checkFault,
